@@ -33,13 +33,13 @@ R2 == [locus |-> [name |-> "ab", len |-> "12", mol |-> "mRNA", topo |-> "linear"
        refs |-> <<[idx |-> "1", range |-> <<"(bases", "1", "to", "12)">>, authors |-> <<"Smith,J.", "and", "Doe,J.">>, title |-> <<"A", "title">>,
                    journal |-> <<"J.", "Biol.", "Chem.", "1", "(1),", "1-2", "(1999)">>, pubmed |-> <<"123456">>, remark |-> <<"A", "remark", "on", "this", "paper">>],
                   [idx |-> "2", range |-> <<"(bases", "1", "to", "12)">>, authors |-> <<"Doe,J.">>, title |-> <<"Direct", "Submission">>,
-                   journal |-> <<"Submitted", "(01-JAN-1999)", "Somewhere">>, pubmed |-> <<>>, remark |-> <<>>]>>,
+                   journal |-> <<"Submitted", "(01-JAN-1999)", "Somewhere,", "CT,  USA">>, pubmed |-> <<>>, remark |-> <<>>]>>,
        others |-> <<<<"COMMENT", <<"This", "is", "a", "comment", "block", "with", "enough", "words", "to", "need", "more", "than", "a", "single", "line", "in", "narrow", "layouts.">>>>,
                     <<"DBLINK", <<"BioProject:", "PRJNA1">>>>>>,
        feats |-> <<[key |-> "misc_feature", loc |-> <<"<1..12">>, quals |-> <<Q("label", <<"x">>)>>]>>,
        origin |-> SeqOf(12)]
 R3 == [locus |-> [name |-> "trna_x1", len |-> "150", mol |-> "tRNA", topo |-> "linear", div |-> "PLN", date |-> "05-MAY-2005"],
-       def |-> <<"tRNA.">>, acc |-> <<"X1">>, ver |-> <<"X1.1">>, kw |-> <<".">>, src |-> <<"yeast">>, org |-> <<"Saccharomyces", "cerevisiae">>,
+       def |-> <<"tRNA.">>, acc |-> <<"X1">>, ver |-> <<"X1.1  GI:1293613">>, kw |-> <<".">>, src |-> <<"yeast">>, org |-> <<"Saccharomyces", "cerevisiae">>,
        refs |-> <<[idx |-> "1", range |-> <<>>, authors |-> <<>>, title |-> <<"Only", "a", "title">>, journal |-> <<"Unpublished">>, pubmed |-> <<>>, remark |-> <<>>]>>,
        others |-> <<>>,
        feats |-> <<[key |-> "tRNA", loc |-> <<"join(1..30,", "61..90,", "complement(100..110),", "145..150)">>, quals |-> <<Q("product", <<"tRNA-Phe">>), Q("db_xref", <<"GeneID:1">>)>>],
